@@ -126,7 +126,7 @@ def r19_cli_args(prog, rep):
                 o_ = origins(body, [c.args[1].place[0]])
                 calls_ = [body.blocks[x].term for x in o_.calls]
                 return any('std::string::String' in ct_.cargs or ct_.cmethod == 'string' for ct_ in calls_) and not any(k_.get('fn') for k_ in o_.consts) and \
-                    not any(a_.rv.j.get('agg') == 'closure' for (_, _, a_) in o_.aggs)
+                    not any(a_.j.get('agg') == 'closure' for (_, _, a_) in o_.aggs)
             okvp = all(plain_string_parser(c) for c in vp)
             ok = not bad and okvp
             rep.ob('R19.5', ok, 'R19.5|%s|arg:%s|value-taken-as-typed' % (body.nkey, name.decode()), 'declared with %s' % sorted({c.cmethod for c in chain}) if ok else
@@ -143,7 +143,7 @@ def run(prog, rep, tier):
     if kg is not None:
         from ..inline import inlined_body
         kg = inlined_body(prog, kg, skip=('generate_keypair', 'apply_derive'))     # the seeded generator may be built by a private helper
-        clos = prog.closures_of(kg)
+        clos = [inlined_body(prog, c_, skip=('generate_keypair', 'apply_derive')) for c_ in prog.closures_of(kg)]     # .. also from the seed closure
         # the seeded generator is built in the closure handed to map_or_else, or in the Some(seed) arm of a match in keygen itself
         seeded = [(c, b) for c in clos + [kg] for b in c.calls() if b.term.cmethod == 'from_seed' and b.term.ctrait.endswith('SeedableRng')]
         ok = len(seeded) == 1
@@ -154,7 +154,8 @@ def run(prog, rep, tier):
             t = b.term
             okt = T['keygen']['prng'] in t.callee.get('self_ty', '')
             owners = owners_of(c, t.args[0])
-            fills = [f for l in owners for f in buffer_fill(c, l)]
+            # (a write into the buffer that cannot reach the from_seed call -- zeroising it afterwards -- does not decide the seed)
+            fills = [f for l in owners for f in buffer_fill(c, l) if b.idx in c.reachable(f[0])]
             okf = len(fills) == 1 and fills[0][1].cmethod == 'copy_from_slice' and fills[0][2] == 0 and c.dominates(fills[0][0], b.idx)
             okd = okr = oks = False
             if okf:
